@@ -360,6 +360,8 @@ var hostileBlock = []string{
 	"* /", "/ *", "\"", "'", "\\", "\\n", "//", "/", "*", "**", "\u00e9", "\u65e5\u672c\u8a9e", "\U0001d4b3", "\u00a0", "\u200b",
 	"`", "<", ">>", ">=", "@", "#", "fn main() {", "}", ";", "\t", " ", "x", "\n", "\r\n", "\r", "\n\n",
 	"\"unterminated", "*\u200b/", "/\u200b*", "\u2028", "\u0085", "\v",
+	// balanced nested comments whose delimiters touch other '/' and '*' characters
+	"/*/ */", "/*/*/ */ */", "/**/", "/***/", "/*/**/*/", "/* /*/ x */ y */", "/*//*/", "/*\n//*/",
 }
 
 func blockText(t *rapid.T, depth int) string {
@@ -880,10 +882,23 @@ func (f *File) renamesToken(i int) bool {
 // FreshName draws an identifier that is unused in f, is no keyword, reserved
 // word or predeclared name, has no trailing digit and no double underscore.
 func (f *File) FreshName(t *rapid.T, taken map[string]bool) string {
+	return f.FreshNameFrom(t, taken, nil)
+}
+
+// BuiltinLikePrefixes start like a predeclared WGSL type or value name, yet an identifier
+// that merely begins with them (material, vecs, texture_clear, ptr_a) is an ordinary name.
+var BuiltinLikePrefixes = []string{"mat", "vec", "texture_", "sampler_", "array_", "atomic_", "ptr_", "bool_", "f32_", "i32_", "u32_"}
+
+// FreshNameFrom is FreshName with extra candidate prefixes (drawn half of the time when given).
+func (f *File) FreshNameFrom(t *rapid.T, taken map[string]bool, extra []string) string {
 	const letters = "abcdefghijklmnopqrstuvwxyz"
 	for {
 		var b strings.Builder
-		b.WriteString(rapid.SampledFrom([]string{"zq", "Zq", "zq_", "wv", "Wv_"}).Draw(t, "prefix"))
+		if len(extra) > 0 && rapid.Bool().Draw(t, "builtinLike") {
+			b.WriteString(rapid.SampledFrom(extra).Draw(t, "prefixB"))
+		} else {
+			b.WriteString(rapid.SampledFrom([]string{"zq", "Zq", "zq_", "wv", "Wv_"}).Draw(t, "prefix"))
+		}
 		for k := rapid.IntRange(2, 6).Draw(t, "len"); k > 0; k-- {
 			b.WriteByte(letters[rapid.IntRange(0, 25).Draw(t, "ch")])
 		}
@@ -918,15 +933,21 @@ func (n *Neutral) rename(t *rapid.T, f *File) (string, EditDesc, bool) {
 	mapping := map[string]string{}
 	taken := map[string]bool{}
 	var desc []string
+	var extra []string
+	for _, p := range BuiltinLikePrefixes {
+		if !n.skipped("rename.prefix." + strings.TrimSuffix(p, "_")) {
+			extra = append(extra, p)
+		}
+	}
 	for _, nm := range names {
 		if all || rapid.IntRange(0, 2).Draw(t, "pick") == 0 {
-			mapping[nm] = f.FreshName(t, taken)
+			mapping[nm] = f.FreshNameFrom(t, taken, extra)
 			desc = append(desc, nm+"->"+mapping[nm])
 		}
 	}
 	if len(mapping) == 0 {
 		nm := names[rapid.IntRange(0, len(names)-1).Draw(t, "one")]
-		mapping[nm] = f.FreshName(t, taken)
+		mapping[nm] = f.FreshNameFrom(t, taken, extra)
 		desc = append(desc, nm+"->"+mapping[nm])
 	}
 	out, ok := f.RenameWith(mapping)
